@@ -718,3 +718,34 @@ def named_consts_of(facts, body, local, flow=None):
                 if c and 'uneval' in c and 'promoted' not in c:
                     out.add(strip_generics(c['uneval']))
     return out
+
+
+def referent_roots(body, local, depth=0, seen=None):
+    """the non-reference locals a reference-typed local may point into (follows &/&mut borrows, copies of
+    references, reborrows and Deref::deref calls; does NOT follow moves of values between owners)"""
+    seen = seen if seen is not None else set()
+    if local in seen or depth > 12:
+        return set()
+    seen.add(local)
+    ty = body.local_ty(local)
+    if not (ty.startswith('&') or ty.startswith('*')):
+        return {local}
+    out = set()
+    for _b, _j, s in body.assigns():
+        if s['lhs']['l'] != local or s['lhs']['p']:
+            continue
+        rv = s['rv']
+        if rv['k'] in ('ref', 'rawptr', 'copyderef'):
+            out |= referent_roots(body, rv['pl']['l'], depth + 1, seen) if (body.local_ty(rv['pl']['l']).startswith(('&', '*'))) else {rv['pl']['l']}
+        elif rv['k'] in ('use', 'cast'):
+            l = op_local(rv['op'])
+            if l is not None:
+                out |= referent_roots(body, l, depth + 1, seen)
+    for _b, t in body.calls():
+        if t['dest']['l'] == local and not t['dest']['p'] and cname(t) in (
+                'core::ops::deref::Deref::deref', 'core::ops::deref::DerefMut::deref_mut', 'core::borrow::Borrow::borrow',
+                'core::convert::AsRef::as_ref', 'core::borrow::BorrowMut::borrow_mut'):
+            l = op_local(t['args'][0])
+            if l is not None:
+                out |= referent_roots(body, l, depth + 1, seen)
+    return out
